@@ -35,6 +35,8 @@ func par2Cycle(r *Run, o cycleOpts) {
 	w := GenWorld(r, gen)
 	if o.big {
 		w.growBig(r)
+	} else if o.hostileRecovery && w.S >= 16 && t.Bool(1, 3, "grow16k") {
+		w.grow16k(r)
 	}
 	prop := r.Prop
 
@@ -293,4 +295,20 @@ func sClass(s int) string {
 		return "<=100"
 	}
 	return ">100"
+}
+
+// grow16k makes the first file larger than 16 KiB (the part of a file
+// beyond that boundary is covered by the full MD5 only, not by the
+// 16k hash that enters the file id and hence the recovery set id).
+func (w *World) grow16k(r *Run) {
+	t := r.T
+	t.Begin("grow16k")
+	defer t.End()
+	size := 16385 + t.Draw(24000, "size")
+	data := expandContent(ckRandom, t.Draw64(0, "cseed"), size, w.S)
+	w.N += (size+w.S-1)/w.S - (len(w.Files[0].Data)+w.S-1)/w.S
+	w.Files[0].Data = data
+	w.Disk.Put(w.Path(0), data)
+	r.Probe("file>=16KiB")
+	r.Logf("grow16k file0=%d bytes N=%d", size, w.N)
 }
